@@ -66,6 +66,7 @@ static OUT_PATH: Mutex<Option<String>> = Mutex::new(None);
 
 pub fn watchdog_start(out_path: &str) {
     *OUT_PATH.lock().unwrap() = Some(out_path.to_string());
+    abort_guard_install();
     std::thread::spawn(|| loop {
         std::thread::sleep(std::time::Duration::from_millis(200));
         let expired = {
@@ -88,6 +89,40 @@ pub fn watchdog_start(out_path: &str) {
             std::process::exit(0);
         }
     });
+}
+
+/// SIGABRT (a second panic while the first one unwinds, a panic in a destructor during cleanup):
+/// the execution in flight is reported as a violation instead of losing the shard.
+extern "C" fn on_abort(_: libc::c_int) {
+    let Ok(g) = WATCH.try_lock() else { return };
+    let Some(w) = g.as_ref() else { return };
+    let class = "abort: the process aborts inside this history (a panic while another panic unwinds, or a panic in a destructor during cleanup)";
+    let out = OUT_PATH.try_lock().ok().and_then(|p| p.clone());
+    match out {
+        Some(p) => {
+            let js = serde_json::json!({
+                "evaluations": 1, "transitions": 1, "pruned": 0, "vt_compares": 0, "caps_hit": [], "samples": [],
+                "class_counts": {class: 1},
+                "witnesses": [{"property": w.property, "class": class, "config": w.config, "history": w.history, "detail": "SIGABRT while executing this history (all other results of this shard are lost)"}],
+                "machinery_errors": [], "extra": {}, "notes": ["a shard aborted inside the code under test: its other counts are missing from the totals"], "max_depth": 0,
+                "states": [], "nontrivial": [], "outcomes": []
+            });
+            let _ = std::fs::write(p, serde_json::to_vec(&js).unwrap());
+            unsafe { libc::_exit(0) }
+        }
+        None => {
+            println!("VIOLATION class={class}");
+            println!("VIOLATION property={} replay=(this file)", w.property);
+            unsafe { libc::_exit(1) }
+        }
+    }
+}
+
+/// Report an abort inside a watched execution as a violation (shards and replays).
+pub fn abort_guard_install() {
+    unsafe {
+        libc::signal(libc::SIGABRT, on_abort as extern "C" fn(libc::c_int) as libc::sighandler_t);
+    }
 }
 
 /// Arm the watchdog for the execution about to start.
